@@ -246,8 +246,23 @@ def gen_program(rng, idx, wild_p=0.25, n_ifaces=None, with_ce=None, replies_p=0.
         ifaces.append({"module": "ifc%d" % i, "name": "Ifc%d" % i, "methods": ms,
                        "alias": ("Alias%d" % i) if rng.random() < 0.3 else None})
     # contract: a name may deliberately re-use a name of *another kind* (C04)
-    cms = [{"name": "instantiate", "msg": {"kind": "instantiate"}, "args": gen_args(rng, 2), "ret_kind": "resp",
+    # instantiate / migrate handlers are not always called `instantiate` / `migrate`: names whose UpperCamel -> snake round trip is lossy
+    # (digits) show emitters that rebuild a handler's name from its variant name; sometimes a *partner* handler of another kind carries
+    # exactly the round-tripped name and the same parameters
+    inst_name = rng.choice(["instantiate", "instantiate", "setup2", "init_v2_x", "new_contract1"])
+    fn_names.add(inst_name)
+    cms = [{"name": inst_name, "msg": {"kind": "instantiate"}, "args": gen_args(rng, 2), "ret_kind": "resp",
             "ret_err": rng.choice(["std", "ce"]) if ce else "std"}]
+    partners = []
+
+    def partner_of(m, kind):
+        pn = casing.cc_snake(casing.upper_camel(m["name"]))
+        if pn != m["name"] and pn not in fn_names and casing.wire_name(pn) not in used_wire[kind] and rng.random() < 0.5:
+            fn_names.add(pn)
+            used_wire[kind].add(casing.wire_name(pn))
+            used_wire[kind].add(casing.cc_snake(casing.upper_camel(pn)))
+            partners.append({"name": pn, "msg": {"kind": kind}, "args": [dict(a) for a in m["args"]], "ret_kind": "resp", "ret_err": m["ret_err"]})
+    partner_of(cms[0], "exec")
     other_kind_names = [(m["name"], m["msg"]["kind"]) for i in ifaces for m in i["methods"]]
     for _ in range(rng.randint(1, 5)):
         k = rng.choice(["exec", "exec", "query", "sudo"])
@@ -264,8 +279,13 @@ def gen_program(rng, idx, wild_p=0.25, n_ifaces=None, with_ce=None, replies_p=0.
         cms.append({"name": nm, "msg": {"kind": k}, "args": args, "ret_kind": "resp" if k != "query" else rng.choice(["echo", "echo", "respb", "respc", "respb_explicit", "respb_as_c"]),
                     "ret_err": rng.choice(["std", "ce"]) if ce else "std"})
     if rng.random() < 0.5:
-        cms.append({"name": "mig_rate", "msg": {"kind": "migrate"}, "args": gen_args(rng, 2), "ret_kind": "resp",
+        mig_name = rng.choice([n for n in ["mig_rate", "mig_rate", "upgrade2", "migrate_v3"] if n not in fn_names])
+        fn_names.add(mig_name)
+        cms.append({"name": mig_name, "msg": {"kind": "migrate"}, "args": gen_args(rng, 2), "ret_kind": "resp",
                     "ret_err": rng.choice(["std", "ce"]) if ce else "std"})
+        # (no partner for migrate: the multitest proxy trait names its methods by the round-tripped name for every kind, so a migrate
+        #  handler `upgrade2` next to a sudo handler `upgrade_2` cannot be expressed there: observation in DESIGN §12)
+    cms += partners
     # same name and shape in two kinds inside the contract itself
     execs = [m for m in cms if m["msg"]["kind"] == "exec"]
     if execs and rng.random() < 0.4:
